@@ -1,10 +1,20 @@
 /-
-  C04 — run/skip/swallow decide execution per iteration; `in` is step-scoped.
-  Property theorems only; helper lemmas live in Props/Lemmas.
+  C04 — run/skip/swallow decide execution per iteration; `in` arguments are step-scoped.
+
+  Model: `PypyrModel/Flow/Layers.lean` (`runConditional` = `Step.run_conditional_decorators`,
+  `setIn`/`unsetIn` = `set_step_input_context`/`unset_step_input_context`, `runStepWith` =
+  `Step.run_step`) and `PypyrModel/Fmt.lean` (`fmtAsBool` = `get_formatted_as_type(.., bool)`).
+  Every theorem is for arbitrary step definitions, arbitrary inner bodies (whatever the retry /
+  invoke layers and the step module do), arbitrary states, fuel and item lists.
+  Property theorems only; helper lemmas live in Props/Lemmas/C04_*.lean.
 -/
-import PypyrModel.Fmt
+import Props.Lemmas.C05_Loops
+import Props.Lemmas.C07_Save
 
 namespace Pypyr.C04
+open Pypyr Pypyr.Flow Pypyr.C05 Pypyr.C07
+
+/-! ## the truth rule -/
 
 /-- pypyr's truth rule, stated outright: a string is true exactly when its
     lower-cased text is `true`, `1` or `1.0`; everything else by Python truthiness. -/
@@ -16,6 +26,354 @@ theorem castToBool_spec (v : Val) :
 
 example : castToBool (.str "TRUE") = true ∧ castToBool (.str "yes") = false ∧
     castToBool (.str "1.0") = true ∧ castToBool (.list []) = false ∧ castToBool (.int 2) = true := by
+  decide +kernel
+
+/-- How a raw decorator value (`run`, `skip`, `swallow`, `stop`, `errorOnMax`) becomes a bool,
+    by kind of the raw value: a special tag (`!sic`, `!py`, `!jsonify`) is evaluated and the
+    result judged by Python truthiness; a string is formatted, a bool result is kept as is, any
+    other result is judged by the string rule `castToBool` (so a formatted string `'False'` is
+    false, `'1'` is true); every other raw value is judged by Python truthiness. -/
+theorem fmtAsBool_spec (fuel : Nat) (ctx : Ctx) (v : Val) :
+    fmtAsBool fuel ctx v = (match v with
+      | .sic _ | .py _ | .jsonify _ => (fmtVal fuel ctx v).map Val.truthy
+      | .str _ =>
+        match fmtVal fuel ctx v with
+        | .error e => .error e
+        | .ok (.bool b) => .ok b
+        | .ok r => .ok (castToBool r)
+      | other => .ok other.truthy) := by
+  cases v <;> rfl
+
+/-- `None`, `0`, empty containers are false; literal bools are themselves — no formatting
+    involved, whatever the context. -/
+theorem fmtAsBool_literals (fuel : Nat) (ctx : Ctx) (b : Bool) (i : Int) :
+    fmtAsBool fuel ctx .none = .ok false ∧ fmtAsBool fuel ctx (.bool b) = .ok b ∧
+    fmtAsBool fuel ctx (.int i) = .ok (i != 0) ∧ fmtAsBool fuel ctx (.list []) = .ok false ∧
+    fmtAsBool fuel ctx (.dict []) = .ok false :=
+  ⟨rfl, rfl, rfl, rfl, rfl⟩
+
+example : fmtAsBool 100 [("a", .str "TRUE"), ("n", .int 0)] (.str "{a}") = .ok true ∧
+    fmtAsBool 100 [("a", .str "TRUE"), ("n", .int 0)] (.str "{n}") = .ok false ∧
+    fmtAsBool 100 [("a", .str "TRUE"), ("n", .int 0)] (.str "yes") = .ok false ∧
+    fmtAsBool 100 [] (.sic "false") = .ok true ∧
+    fmtAsBool 100 [("n", .int 0)] (.py (.binop .eq (.name "n") (.const (.int 0)))) = .ok true := by
+  decide +kernel
+
+/-! ## run and skip decide, at the moment of each execution -/
+
+/-- **The body executes iff `run` evaluates true and `skip` evaluates false**, both evaluated on
+    the state `s` in which this execution is about to happen: in that case the layer's result is
+    the body's result post-processed by the swallow logic (`swallowWrap`); otherwise the body is
+    not applied at all and the state is returned untouched. `skip` only needs a value when `run`
+    is true. -/
+theorem body_runs_iff (d : StepDef) (inner : Body) (s : St) (r k : Bool)
+    (hrun : fmtB s d.run = .ok r) (hskip : r = true → fmtB s d.skip = .ok k) :
+    runConditional d inner s = (if r && !k then swallowWrap d (inner s) else (s, .ok)) := by
+  rw [runConditional_eq, hrun]
+  cases r with
+  | false => rfl
+  | true =>
+    simp only [hskip rfl]
+    cases k <;> rfl
+
+/-- … `skip` is not even evaluated when `run` is false: the result is the same whatever the
+    step's `skip` is — even an expression that cannot be formatted. -/
+theorem skip_not_evaluated_when_run_false (d : StepDef) (inner : Body) (s : St) (anySkip : Val)
+    (hrun : fmtB s d.run = .ok false) :
+    runConditional { d with skip := anySkip } inner s = (s, .ok) :=
+  runConditional_run_false _ inner s hrun
+
+/-- The same as an observable equivalence: for a body that leaves a mark in the trace when it
+    executes, the mark is there after the layer iff `run ∧ ¬skip`. -/
+theorem body_runs_iff_trace (d : StepDef) (inner : Body) (s : St) (r k : Bool)
+    (hrun : fmtB s d.run = .ok r) (hskip : r = true → fmtB s d.skip = .ok k)
+    (hmark : (inner s).1.trace ≠ s.trace) :
+    (runConditional d inner s).1.trace ≠ s.trace ↔ (r && !k) = true := by
+  rw [body_runs_iff d inner s r k hrun hskip]
+  by_cases h : (r && !k) = true
+  · simp only [h, if_true, swallowWrap_trace, iff_true]; exact hmark
+  · simp [h]
+
+/-- an error while evaluating `run` (or `skip`) is raised by the step; the body does not run. -/
+theorem run_expression_error_raises (d : StepDef) (inner : Body) (s : St) (x : Exc)
+    (hrun : fmtB s d.run = .error x) : runConditional d inner s = raiseExc s x := by
+  rw [runConditional_eq, hrun]
+
+/-- **Per iteration**: inside a foreach the decision is taken afresh for every item, on the state
+    the previous iterations left with `i` bound to the current item. -/
+theorem decision_is_per_iteration (d : StepDef) (fr : Frame) (inner : Frame → Body) (x : Val)
+    (rest : List Val) (s : St) :
+    foreachItems fr (fun fr' => runConditional d (inner fr')) (x :: rest) s =
+      (match runConditional d (inner { fr with forI := some x }) { s with ctx := Ctx.set s.ctx "i" x } with
+       | (s1, .ok) => foreachItems fr (fun fr' => runConditional d (inner fr')) rest s1
+       | other => other) :=
+  foreachItems_cons fr _ x rest s
+
+/-- … and likewise for every iteration of a while loop (`whileCounter` = the iteration number). -/
+theorem decision_is_per_while_iteration (d : StepDef) (cfg : WhileCfg) (fr : Frame) (inner : Frame → Body)
+    (max : Option Nat) (sleep : Num) (eom : Bool) (fuel k : Nat) (s : St) :
+    whileIter cfg fr (fun fr' => runConditional d (inner fr')) max sleep eom (fuel + 1) k s =
+      (match runConditional d (inner { fr with whileC := some k })
+              { s with ctx := Ctx.set s.ctx "whileCounter" (.int k) } with
+       | (s1, .ok) => whileAfter cfg fr (fun fr' => runConditional d (inner fr')) max sleep eom fuel k s1
+       | other => other) :=
+  whileIter_succ cfg fr _ max sleep eom fuel k s
+
+/-- the mark the demonstration body leaves. -/
+def markEvent : Event := { tag := "body", i := none, w := none, r := none, nerr := 0, pipe := "", depth := 0, keys := [] }
+
+/-- a body that records that it ran and switches the flag `go` off. -/
+def flipBody : Frame → Body := fun _ s =>
+  ({ s with ctx := Ctx.set s.ctx "go" (.bool false), trace := s.trace ++ [markEvent] }, .ok)
+
+theorem parse_go : parsePieces "{go}" = .ok [.field "go" ""] := by decide +kernel
+
+theorem fmtB_false_lit (s : St) : fmtB s (.bool false) = .ok false := rfl
+
+/-- Corollary (decisions change between iterations): a step with `run: '{go}'` whose body switches
+    `go` off runs its body for the first item and for none of the others — for every non-empty
+    item list, any frame, any state in which `go` is true. -/
+theorem decision_changes_between_iterations (d : StepDef) (hr : d.run = .str "{go}") (hk : d.skip = .bool false)
+    (fr : Frame) (x : Val) (rest : List Val) (s : St) (hgo : Ctx.get? s.ctx "go" = some (.bool true)) :
+    ∃ s', foreachItems fr (fun fr' => runConditional d (flipBody fr')) (x :: rest) s = (s', .ok) ∧
+      s'.trace = s.trace ++ [markEvent] ∧ Ctx.get? s'.ctx "go" = some (.bool false) := by
+  -- once `go` is false nothing runs any more
+  have off : ∀ (items : List Val) (t : St), Ctx.get? t.ctx "go" = some (.bool false) →
+      ∃ t', foreachItems fr (fun fr' => runConditional d (flipBody fr')) items t = (t', .ok) ∧
+        t'.trace = t.trace ∧ Ctx.get? t'.ctx "go" = some (.bool false) := by
+    intro items
+    induction items with
+    | nil => intro t ht; exact ⟨t, rfl, rfl, ht⟩
+    | cons y ys ih =>
+      intro t ht
+      have hg : Ctx.get? (setI y t).ctx "go" = some (.bool false) := by
+        show Ctx.get? (Ctx.set t.ctx "i" y) "go" = _
+        rw [ctx_get_set_ne _ _ _ _ (by decide)]; exact ht
+      have hrun : fmtB (setI y t) d.run = .ok false := by
+        rw [hr]; exact fmtB_key_bool _ _ _ _ parse_go hg
+      have h1 : itemOut fr (fun fr' => runConditional d (flipBody fr')) y t = (setI y t, .ok) :=
+        runConditional_run_false d _ _ hrun
+      rw [foreachItems_cons_of_ok _ _ _ _ _ (by rw [h1]), h1]
+      obtain ⟨t', e1, e2, e3⟩ := ih (setI y t) hg
+      exact ⟨t', e1, e2, e3⟩
+  have hg : Ctx.get? (setI x s).ctx "go" = some (.bool true) := by
+    show Ctx.get? (Ctx.set s.ctx "i" x) "go" = _
+    rw [ctx_get_set_ne _ _ _ _ (by decide)]; exact hgo
+  have hrun : fmtB (setI x s) d.run = .ok true := by
+    rw [hr]; exact fmtB_key_bool _ _ _ _ parse_go hg
+  have hskip : fmtB (setI x s) d.skip = .ok false := by rw [hk]; rfl
+  have h1 : itemOut fr (fun fr' => runConditional d (flipBody fr')) x s =
+      ({ (setI x s) with ctx := Ctx.set (setI x s).ctx "go" (.bool false),
+                         trace := (setI x s).trace ++ [markEvent] }, .ok) :=
+    runConditional_nonerr d _ _ _ _ hrun hskip rfl rfl
+  rw [foreachItems_cons_of_ok _ _ _ _ _ (by rw [h1]), h1]
+  obtain ⟨t', e1, e2, e3⟩ := off rest _ (ctx_get_set_self _ _ _)
+  exact ⟨t', e1, e2, e3⟩
+
+/-! ## swallow -/
+
+/-- **swallow true**: an error raised by the body is suppressed — `swallow` being evaluated
+    *after* the body, on the state `s1` the body left — the failure is recorded once in
+    `runErrors` with `swallowed = true`, and the layer completes normally. -/
+theorem swallow_true_suppresses (d : StepDef) (inner : Body) (s s1 s2 : St) (e : ExcV)
+    (hrun : fmtB s d.run = .ok true) (hskip : fmtB s d.skip = .ok false)
+    (hi : inner s = (s1, .err e false))
+    (hsw : fmtB s1 d.swallow = .ok true) (hsave : saveError d s1 e true = (s2, .ok)) :
+    runConditional d inner s = (s2, .ok) ∧
+    ∃ ce, customError d s1 = .ok ce ∧ runErrorsOf s2 = runErrorsOf s1 ++ [entry d e true ce] := by
+  constructor
+  · rw [body_runs_iff d inner s true false hrun (fun _ => hskip), hi]
+    simp [swallowWrap, hsw, hsave]
+  · obtain ⟨ce, hc, hs2⟩ := saveError_ok d s1 s2 e true hsave
+    exact ⟨ce, hc, by rw [hs2]; exact runErrorsOf_set _ _ _⟩
+
+/-- … so a foreach goes on with the next item from the state after recording, -/
+theorem swallow_true_foreach_continues (d : StepDef) (fr : Frame) (inner : Frame → Body) (x : Val)
+    (rest : List Val) (s s1 s2 : St) (e : ExcV)
+    (hrun : fmtB (setI x s) d.run = .ok true) (hskip : fmtB (setI x s) d.skip = .ok false)
+    (hi : inner { fr with forI := some x } (setI x s) = (s1, .err e false))
+    (hsw : fmtB s1 d.swallow = .ok true) (hsave : saveError d s1 e true = (s2, .ok)) :
+    foreachItems fr (fun fr' => runConditional d (inner fr')) (x :: rest) s =
+      foreachItems fr (fun fr' => runConditional d (inner fr')) rest s2 := by
+  have h := (swallow_true_suppresses d _ _ s1 s2 e hrun hskip hi hsw hsave).1
+  exact foreachItems_cons_ok fr _ x rest s s2 h
+
+/-- … and a while loop goes on to its post-iteration `stop` check and the next iteration. -/
+theorem swallow_true_while_continues (d : StepDef) (cfg : WhileCfg) (fr : Frame) (inner : Frame → Body)
+    (max : Option Nat) (sleep : Num) (eom : Bool) (fuel k : Nat) (s s1 s2 : St) (e : ExcV)
+    (hrun : fmtB (setW k s) d.run = .ok true) (hskip : fmtB (setW k s) d.skip = .ok false)
+    (hi : inner { fr with whileC := some k } (setW k s) = (s1, .err e false))
+    (hsw : fmtB s1 d.swallow = .ok true) (hsave : saveError d s1 e true = (s2, .ok)) :
+    whileIter cfg fr (fun fr' => runConditional d (inner fr')) max sleep eom (fuel + 1) k s =
+      whileAfter cfg fr (fun fr' => runConditional d (inner fr')) max sleep eom fuel k s2 := by
+  have h := (swallow_true_suppresses d _ _ s1 s2 e hrun hskip hi hsw hsave).1
+  have h' : iterOut fr (fun fr' => runConditional d (inner fr')) k s = (s2, .ok) := h
+  rw [whileIter_succ_of_ok _ _ _ _ _ _ _ _ _ (by rw [h']), h']
+
+/-- **swallow false**: the error is recorded (with `swallowed = false`) and propagates. -/
+theorem swallow_false_propagates (d : StepDef) (inner : Body) (s s1 s2 : St) (e : ExcV)
+    (hrun : fmtB s d.run = .ok true) (hskip : fmtB s d.skip = .ok false)
+    (hi : inner s = (s1, .err e false))
+    (hsw : fmtB s1 d.swallow = .ok false) (hsave : saveError d s1 e false = (s2, .ok)) :
+    runConditional d inner s = (s2, .err e false) ∧
+    ∃ ce, customError d s1 = .ok ce ∧ runErrorsOf s2 = runErrorsOf s1 ++ [entry d e false ce] := by
+  constructor
+  · rw [body_runs_iff d inner s true false hrun (fun _ => hskip), hi]
+    simp [swallowWrap, hsw, hsave]
+  · obtain ⟨ce, hc, hs2⟩ := saveError_ok d s1 s2 e false hsave
+    exact ⟨ce, hc, by rw [hs2]; exact runErrorsOf_set _ _ _⟩
+
+/-- … out of a foreach (no further item) and out of a while loop (no `stop` check, no sleep, no
+    further iteration). -/
+theorem swallow_false_ends_loops (d : StepDef) (cfg : WhileCfg) (fr : Frame) (inner : Frame → Body)
+    (max : Option Nat) (sleep : Num) (eom : Bool) (fuel k : Nat) (x : Val) (rest : List Val)
+    (s s1 s2 : St) (e : ExcV) :
+    (fmtB (setI x s) d.run = .ok true → fmtB (setI x s) d.skip = .ok false →
+     inner { fr with forI := some x } (setI x s) = (s1, .err e false) →
+     fmtB s1 d.swallow = .ok false → saveError d s1 e false = (s2, .ok) →
+     foreachItems fr (fun fr' => runConditional d (inner fr')) (x :: rest) s = (s2, .err e false)) ∧
+    (fmtB (setW k s) d.run = .ok true → fmtB (setW k s) d.skip = .ok false →
+     inner { fr with whileC := some k } (setW k s) = (s1, .err e false) →
+     fmtB s1 d.swallow = .ok false → saveError d s1 e false = (s2, .ok) →
+     whileIter cfg fr (fun fr' => runConditional d (inner fr')) max sleep eom (fuel + 1) k s =
+       (s2, .err e false)) := by
+  constructor
+  · intro hrun hskip hi hsw hsave
+    have h := (swallow_false_propagates d _ _ s1 s2 e hrun hskip hi hsw hsave).1
+    exact foreachItems_cons_nonok fr _ x rest s s2 _ h (by simp)
+  · intro hrun hskip hi hsw hsave
+    have h := (swallow_false_propagates d _ _ s1 s2 e hrun hskip hi hsw hsave).1
+    exact whileIter_nonok cfg fr _ max sleep eom fuel k s s2 _ h (by simp)
+
+/-- `swallow` has no say over anything but errors: normal completion and control-of-flow
+    instructions pass whatever `swallow` is. -/
+theorem swallow_irrelevant_without_error (d : StepDef) (inner : Body) (s s1 : St) (r : Res)
+    (hrun : fmtB s d.run = .ok true) (hskip : fmtB s d.skip = .ok false)
+    (hi : inner s = (s1, r)) (hr : r.isErr = false) :
+    runConditional d inner s = (s1, r) :=
+  runConditional_nonerr d inner s s1 r hrun hskip hi hr
+
+/-! ## `in` arguments are step-scoped -/
+
+/-- **Visible to everything**: `run_step` first puts the `in` arguments into the context
+    (`setIn`), and *all* of the step's layers — while, foreach, run/skip/swallow, retry, the
+    module body — run from that state (`stepCore` is the whole decorator stack); on normal
+    completion the arguments are taken out again (`unsetIn`), on any other outcome the state is
+    left as it is. -/
+theorem in_visible (d : StepDef) (body : Body) (callee : CofCfg → Body) (fuel : Nat) (s : St) :
+    runStepWith d body callee fuel s =
+      (match stepCore d body callee fuel (setIn d s) with
+       | (s1, .ok) => (unsetIn d s1, .ok)
+       | other => other) :=
+  runStepWith_eq d body callee fuel s
+
+/-- **Override**: in that state every `in` key holds the `in` value (the last binding, should a
+    key be given twice), whatever the context held under that key before. -/
+theorem in_overrides (d : StepDef) (s : St) (pre post : List (String × Val)) (k : String) (v : Val)
+    (h : d.inArgs = some (pre ++ (k, v) :: post)) (hlast : k ∉ post.map (·.1)) :
+    Ctx.get? (setIn d s).ctx k = some v := by
+  rw [setIn_eq, h]
+  exact ctx_get_update_last pre post s.ctx k v hlast
+
+/-- every `in` key is present while the step runs. -/
+theorem in_all_present (d : StepDef) (s : St) (k : String) (hk : k ∈ inKeys d) :
+    ∃ v, (k, v) ∈ d.inArgs.getD [] ∧ Ctx.get? (setIn d s).ctx k = some v := by
+  rw [setIn_eq]
+  exact ctx_get_update_mem _ s.ctx k hk
+
+/-- Corollary (the decorator expressions see the `in` values, not the outer ones): a step
+    `in: {go: false}`, `run: '{go}'` without loops never runs its body, whatever `go` is outside
+    — and afterwards `go` is not in the context at all. -/
+theorem in_overrides_for_decorators (d : StepDef) (body : Body) (callee : CofCfg → Body) (fuel : Nat) (s : St)
+    (hin : d.inArgs = some [("go", .bool false)]) (hr : d.run = .str "{go}")
+    (hw : d.while_ = none) (hf : d.foreach = none) :
+    runStepWith d body callee fuel s = (unsetIn d (setIn d s), .ok) ∧
+    Ctx.get? (runStepWith d body callee fuel s).1.ctx "go" = none := by
+  have hg : Ctx.get? (setIn d s).ctx "go" = some (.bool false) :=
+    in_overrides d s [] [] "go" (.bool false) hin (by simp)
+  have hrun : fmtB (setIn d s) d.run = .ok false := by
+    rw [hr]; exact fmtB_key_bool _ _ _ _ parse_go hg
+  have hcore : stepCore d body callee fuel (setIn d s) = (setIn d s, .ok) := by
+    unfold stepCore foreachLayer foreachOrConditional conditionalLayer
+    rw [hw, hf]
+    exact runConditional_run_false d _ _ hrun
+  have e : runStepWith d body callee fuel s = (unsetIn d (setIn d s), .ok) := by
+    rw [runStepWith_eq, hcore]
+  refine ⟨e, ?_⟩
+  rw [e, unsetIn_eq, hin]
+  exact ctx_get_eraseAll_mem _ _ _ (by simp)
+
+/-- **Gone afterwards**: when the step completes normally no `in` key is in the context — for
+    every module body, every called group, every combination of decorators and loops, and even
+    if the body (re-)created the key itself during the step. -/
+theorem in_removed_on_ok (d : StepDef) (body : Body) (callee : CofCfg → Body) (fuel : Nat) (s s' : St)
+    (h : runStepWith d body callee fuel s = (s', .ok)) :
+    ∀ k, k ∈ inKeys d → Ctx.get? s'.ctx k = none := by
+  intro k hk
+  rw [runStepWith_eq] at h
+  generalize stepCore d body callee fuel (setIn d s) = p at h
+  obtain ⟨s1, r⟩ := p
+  cases r <;> simp only [] at h <;> injection h with h1 h2 <;> try (cases h2)
+  rw [← h1, unsetIn_eq]
+  exact ctx_get_eraseAll_mem _ _ _ hk
+
+/-- when the step does *not* complete normally (an error or an instruction leaves it) the state is
+    handed on exactly as the layers left it: the arguments are not removed (as in the code, which
+    has no `finally` there). -/
+theorem in_kept_on_non_ok (d : StepDef) (body : Body) (callee : CofCfg → Body) (fuel : Nat) (s s' : St) (r : Res)
+    (h : stepCore d body callee fuel (setIn d s) = (s', r)) (hr : r ≠ .ok) :
+    runStepWith d body callee fuel s = (s', r) := by
+  rw [runStepWith_eq, h]
+  cases r <;> simp_all
+
+/-- **Frame**: putting the arguments in and taking them out changes nothing but the context, and
+    in the context nothing but the `in` keys. -/
+theorem in_frame (d : StepDef) (s : St) :
+    (∀ k, k ∉ inKeys d → Ctx.get? (setIn d s).ctx k = Ctx.get? s.ctx k) ∧
+    (∀ k, k ∉ inKeys d → Ctx.get? (unsetIn d s).ctx k = Ctx.get? s.ctx k) ∧
+    setIn d s = { s with ctx := (setIn d s).ctx } ∧ unsetIn d s = { s with ctx := (unsetIn d s).ctx } := by
+  refine ⟨fun k hk => ?_, fun k hk => ?_, ?_, ?_⟩
+  · rw [setIn_eq]; exact ctx_get_update_notin _ _ _ hk
+  · rw [unsetIn_eq]; exact ctx_get_eraseAll_notin _ _ _ hk
+  · rw [setIn_eq]
+  · rw [unsetIn_eq]
+
+/-- a step without `in` leaves the context alone at both ends. -/
+theorem no_in_no_change (d : StepDef) (s : St) (h : d.inArgs = none) : setIn d s = s ∧ unsetIn d s = s := by
+  unfold setIn unsetIn; rw [h]; exact ⟨rfl, rfl⟩
+
+/-! ## non-vacuity: a concrete pipeline exercising all of it -/
+
+/-- `steps`: (1) a foreach step whose `in` overrides the outer `go`, whose `run` is `'{go}'` and
+    whose body (the probe) switches `go` off and re-creates the `in` key `extra` — it runs for the
+    first item only; (2) a failing step with `swallow: '{sw}'` where `sw` comes from `in`;
+    (3) a plain probe that reports which keys are left. -/
+def demoProg : Program := ⟨[{ name := "main", groups := [
+  ("steps", some [
+    { name := some "vprobe",
+      inArgs := some [("go", .bool true), ("extra", .int 1),
+                      ("p", .dict [(.str "tag", .str "a"),
+                                   (.str "set", .dict [(.str "go", .bool false), (.str "extra", .int 2)])])],
+      run := .str "{go}", foreach := some (.list [.int 10, .int 20, .int 30]) },
+    { name := some "vprobe",
+      inArgs := some [("sw", .str "TRUE"), ("p", .dict [(.str "tag", .str "b"), (.str "failRest", .str "ValueError")])],
+      swallow := .str "{sw}", line := some 7, col := some 3 },
+    { name := some "vprobe",
+      inArgs := some [("p", .dict [(.str "tag", .str "c"), (.str "keys", .list [.str "go", .str "extra", .str "sw"])])] }])] }]⟩
+
+example :
+    let r := runRoot 50 demoProg { name := "main" } { ctx := [("go", .bool false)] }
+    r.2 = .ok ∧
+    -- the body of step 1 ran once (item 10), step 2 once, step 3 once
+    r.1.trace.map (fun ev => (ev.tag, ev.i)) = [("a", some (.int 10)), ("b", some (.int 30)), ("c", some (.int 30))] ∧
+    -- at step 3 the `in` keys of the earlier steps are gone: even `go`, which existed before, and `extra`,
+    -- which the body re-created
+    r.1.trace.map (fun ev => ev.keys) = [[], [], [("go", none), ("extra", none), ("sw", none)]] ∧
+    -- the swallowed failure is recorded, flagged swallowed, with the step's position
+    Ctx.get? r.1.ctx "runErrors" = some (.list [.dict [
+      (.str "name", .str "ValueError"), (.str "description", .str "boom b"), (.str "customError", .dict []),
+      (.str "line", .int 7), (.str "col", .int 3), (.str "step", .str "vprobe"),
+      (.str "exception", .obj 0), (.str "swallowed", .bool true)]]) := by
   decide +kernel
 
 end Pypyr.C04
